@@ -505,6 +505,7 @@ class UDPDeviceManagementConnection(_DeviceManagementConnection):
     """
 
     __slots__ = (
+        "_acknowledgement_wait",
         "_device_management",
         "local_ip",
         "local_port",
@@ -527,6 +528,7 @@ class UDPDeviceManagementConnection(_DeviceManagementConnection):
         self.local_port = local_port
         self.route_back = route_back
         self._device_management: DeviceManagement | None = None
+        self._acknowledgement_wait: asyncio.Future[object] | None = None
         super().__init__(
             gateway_ip=gateway_ip,
             gateway_port=gateway_port,
@@ -565,6 +567,9 @@ class UDPDeviceManagementConnection(_DeviceManagementConnection):
         if self._device_management is not None:
             self._device_management.stop()
             self._device_management = None
+        if self._acknowledgement_wait is not None:
+            # Fail a request waiting for its acknowledgement instead of timing it out.
+            self._acknowledgement_wait.cancel()
 
     async def _send_request(self, cemi: CEMIFrame) -> None:
         """Send a request, repeating it while it stays unacknowledged."""
@@ -590,8 +595,11 @@ class UDPDeviceManagementConnection(_DeviceManagementConnection):
             )
             error_code: ErrorCode | None = None
             acknowledged = True
+            self._acknowledgement_wait = asyncio.ensure_future(
+                device_configuration.request()
+            )
             try:
-                await device_configuration.request()
+                await self._acknowledgement_wait
             except RequestResponseError as err:
                 error_code = err.error_code
                 acknowledged = (
@@ -601,6 +609,14 @@ class UDPDeviceManagementConnection(_DeviceManagementConnection):
                     and self._pending.done()
                     and not self._pending.cancelled()
                 )
+            except asyncio.CancelledError:
+                if (task := asyncio.current_task()) is not None and task.cancelling():
+                    raise  # the caller was cancelled, not the wait
+                raise CommunicationError(
+                    "Device management connection was closed."
+                ) from None
+            finally:
+                self._acknowledgement_wait = None
             if acknowledged:
                 self.sequence_number = self.sequence_number + 1 & 0xFF
                 return
